@@ -275,3 +275,44 @@ M('c08e-second-per-byte-rescan', 'C08', 'break', RQ,
           '        // Have we reached the end of the line?\n        if (connp->in_next_byte == LF || !req_probe_len(connp)) {\n            unsigned char *data;\n            size_t len;\n\n            if (htp_connp_req_consolidate_data(connp, &data, &len) != HTP_OK) {\n                return HTP_ERROR;\n            }\n\n            connp->in_tx->request_message_len += len;'),
          (RQ, 'htp_status_t htp_connp_REQ_BODY_CHUNKED_LENGTH(htp_connp_t *connp) {',
           'static int req_probe_len(htp_connp_t *connp) {\n    unsigned char *p = connp->in_current_data + connp->in_current_consume_offset;\n    size_t n = connp->in_current_read_offset - connp->in_current_consume_offset;\n    for (size_t i = 0; i < n; i++) if (p[i] > 0x7f) return 0;\n    return 1;\n}\n\nhtp_status_t htp_connp_REQ_BODY_CHUNKED_LENGTH(htp_connp_t *connp) {')])
+
+# ---------------- C11
+M('c11a-te-cl-smuggling-dropped', 'C11', 'break', TX,
+  '                //  the latter MUST be ignored."\n                //\n                tx->flags |= HTP_REQUEST_SMUGGLING;',
+  '                //  the latter MUST be ignored."\n                //', 'C11.a')
+M('c11a-te-cl-framed-by-identity', 'C11', 'break', TX,
+  '            // If the T-E header is present we are going to use it.\n            tx->request_transfer_coding = HTP_CODING_CHUNKED;\n\n            // We are still going to check for the presence of C-L.\n            if (cl != NULL) {',
+  '            // If the T-E header is present we are going to use it.\n            tx->request_transfer_coding = HTP_CODING_CHUNKED;\n\n            // We are still going to check for the presence of C-L.\n            if (cl != NULL && tx->request_protocol_number < HTP_PROTOCOL_1_1) {\n                tx->request_transfer_coding = HTP_CODING_IDENTITY;\n            }\n            if (cl != NULL) {', 'C11.a')
+M('c11a-old-proto-only-invalid-te', 'C11', 'break', TX,
+  '                tx->flags |= HTP_REQUEST_INVALID_T_E;\n                tx->flags |= HTP_REQUEST_SMUGGLING;\n            }',
+  '                tx->flags |= HTP_REQUEST_INVALID_T_E;\n            }', 'C11.a')
+M('c11a-repeated-test-moved-into-else', 'C11', 'break', TX,
+  '        // Check for multiple C-L headers.\n        if (cl->flags & HTP_FIELD_REPEATED) {\n            tx->flags |= HTP_REQUEST_SMUGGLING;',
+  '        // Check for multiple C-L headers.\n        if ((cl->flags & HTP_FIELD_REPEATED) && (bstr_chr(cl->value, \',\') >= 0)) {\n            tx->flags |= HTP_REQUEST_SMUGGLING;', 'C11.a')
+M('c11a-invalid-cl-not-invalid', 'C11', 'break', TX,
+  '            tx->flags |= HTP_REQUEST_INVALID_C_L;\n            tx->flags |= HTP_REQUEST_INVALID;\n        } else {',
+  '            tx->flags |= HTP_REQUEST_INVALID_C_L;\n        } else {', 'C11.a')
+M('c11a-keep-has-cl-local', 'C11', 'keep', TX,
+  '            // We are still going to check for the presence of C-L.\n            if (cl != NULL) {\n                // According to the HTTP/1.1 RFC (section 4.4):',
+  '            // We are still going to check for the presence of C-L.\n            if (!(cl == NULL)) {\n                // According to the HTTP/1.1 RFC (section 4.4):')
+M('c11h-host-missing-only-1-1-exact', 'C11', 'break', TX,
+  '        if (tx->request_protocol_number >= HTP_PROTOCOL_1_1) {\n            tx->flags |= HTP_HOST_MISSING;',
+  '        if (tx->request_protocol_number == HTP_PROTOCOL_1_1 && tx->request_method_number != HTP_M_CONNECT) {\n            tx->flags |= HTP_HOST_MISSING;', 'C11.h')
+M('c11h-port-compare-dropped', 'C11', 'break', TX,
+  '                if (((tx->request_port_number != -1)&&(port != -1))&&(tx->request_port_number != port)) {\n                    tx->flags |= HTP_HOST_AMBIGUOUS;\n                }',
+  '', 'C11.h')
+M('c11h-invalid-host-not-ambiguous', 'C11', 'break', TX,
+  '            if (tx->request_hostname != NULL) {\n                // Raise the flag, even though the host information in the headers is invalid.\n                tx->flags |= HTP_HOST_AMBIGUOUS;\n            }',
+  '', 'C11.h')
+M('c11h-hosth-validation-dropped', 'C11', 'break', 'htp/htp_util.c',
+  '    if (*hostname != NULL) {\n        if (htp_validate_hostname(*hostname) == 0) {\n            *flags |= HTP_HOSTH_INVALID;\n        }\n    }',
+  '', 'C11.h')
+M('c11r-response-te-cl-smuggling-dropped', 'C11', 'break', RS,
+  '            if (cl != NULL) {\n                // This is a violation of the RFC\n                connp->out_tx->flags |= HTP_REQUEST_SMUGGLING;\n            }',
+  '', 'C11.r')
+M('c11c-cap-drops-before-repeated', 'C11', 'break', RG,
+  '        if ((h_existing->flags & HTP_FIELD_REPEATED) == 0) {\n            // This is the second occurence for this header.\n            htp_log(connp, HTP_LOG_MARK, HTP_LOG_WARNING, 0, "Repetition for header");\n        } else {',
+  '        if (connp->in_tx->req_header_repetitions == 0 && (h_existing->flags & HTP_FIELD_REPEATED) == 0) {\n            // This is the second occurence for this header.\n            htp_log(connp, HTP_LOG_MARK, HTP_LOG_WARNING, 0, "Repetition for header");\n        } else {', 'C11.c')
+M('c11b-new-dead-flag', 'C11', 'break', TX,
+  '    // Check for PUT requests, which we need to treat as file uploads.',
+  '    if (cl != NULL && (cl->flags & HTP_FIELD_RAW_NUL)) tx->flags |= HTP_REQUEST_SMUGGLING;\n    // Check for PUT requests, which we need to treat as file uploads.', 'C11.b')
